@@ -87,28 +87,26 @@ Proof.
 Qed.
 Print Assumptions C15_accept_stable.
 
-(* triples: PARTIAL - stable when the accepted predicate id has no space and the subject type no form feed
-   (the components of every accepted triple are individually stable: parse_triple_components) *)
+(* triples: PARTIAL - stable when the subject type of the accepted triple has no form feed (a condition of the
+   subject-split lemma; no accepted counterexample is known: OPEN to remove it).  After F4b the predicate id is
+   unrestricted (the components of every accepted triple are individually stable: parse_triple_components) *)
 Theorem C15_accept_stable_triple_partial : forall (O : oracles), accept_laws O -> forall s t,
   parse_triple O s = Ok t ->
-  memb c_space (pid (tpred t)) = false -> memb x0c (ntype (subj t)) = false ->
+  memb x0c (ntype (subj t)) = false ->
   parse_triple O (print_triple O t) = Ok t.
 Proof. exact triple_accept_stable_partial. Qed.
 Print Assumptions C15_accept_stable_triple_partial.
 
-(* REFUTED in full: an id containing ']' blank '/' reached through an escape (\x20) is accepted; its printed form is not.
-   Library answers as a table: Unquote of the escaped form, Quote of the id. *)
+(* the witness that refuted the full statement before F4b (an id containing ']' blank '/' reached through \x20)
+   is now accepted and stable.  Library answers as a table: Unquote of the escaped form, Quote of the id. *)
 Definition respaced_oracles : oracles :=
-  table_oracles (mkTables [(lit """x]\x20/y""", lit "x] /y")] [(lit "x] /y", lit """x] /y""")] [] [] [] []).
+  table_oracles (mkTables [(lit """x]\x20/y""", lit "x] /y"); (lit """x] /y""", lit "x] /y")] [(lit "x] /y", lit """x] /y""")] [] [] [] []).
 
-Theorem C15_accept_stable_triple_refuted : exists O s t,
-  parse_triple O s = Ok t /\ parse_triple O (print_triple O t) = Err.
-Proof.
-  exists respaced_oracles, (lit "/a<b>	""x]\x20/y""@[]	/c<d>"),
-         (mkTriple (mkNode (lit "/a") (lit "b")) (mkPred (lit "x] /y") None) (ONode (mkNode (lit "/c") (lit "d")))).
-  split; vm_compute; reflexivity.
-Qed.
-Print Assumptions C15_accept_stable_triple_refuted.
+Example C15_accept_stable_triple_former_witness :
+  let t := mkTriple (mkNode (lit "/a") (lit "b")) (mkPred (lit "x] /y") None) (ONode (mkNode (lit "/c") (lit "d"))) in
+  parse_triple respaced_oracles (lit "/a<b>	""x]\x20/y""@[]	/c<d>") = Ok t /\
+  parse_triple respaced_oracles (print_triple respaced_oracles t) = Ok t.
+Proof. split; vm_compute; reflexivity. Qed.
 
 (* ---- the line-oriented reader (model Io.v, after F22/F23).  A raw line is what lies between newlines;
    line_text drops a trailing CR and trims.  line_ok: fits bufio.Scanner's 64 KiB buffer and is blank or a triple;
